@@ -83,7 +83,13 @@ func c10Gen(idx int) c10Case {
 		if c.Backend == "memdb" {
 			c.Backend = "bolt-trimmed"
 		}
-		if rng.Chance(40) { // only lying peers answer the repair: whatever they send must not be written
+		if (idx/4)%4 == 3 {
+			// every peer fails the first pass (its first stream ends before anything arrives) and is honest afterwards:
+			// the repair's second pass over the peers must fetch the faulty round itself
+			for i := range c.Peers {
+				c.Peers[i] = "honest-after-closing-its-first-stream"
+			}
+		} else if rng.Chance(40) { // only lying peers answer the repair: whatever they send must not be written
 			liars := []string{"bad-signature", "wrong-round-label", "foreign-beacon-id", "bad-signature", "refuses"}
 			for i := range c.Peers {
 				c.Peers[i] = liars[rng.Intn(len(liars))]
@@ -123,9 +129,13 @@ func c10Server(nt *vfbNet, beh string, valid []*common.Beacon, rng *vfRng, serve
 	if len(firstPacket) > 0 && firstPacket[0] {
 		k = 0 // a repair consumes one beacon per request: the lie has to be in the first packet
 	}
+	var streams int64
 	return func(ctx context.Context, req *proto.SyncRequest, out chan<- *proto.BeaconPacket) {
 		atomic.AddInt64(served, 1)
 		nt.run.Count("peer_streams."+beh, 1)
+		if beh == "honest-after-closing-its-first-stream" && atomic.AddInt64(&streams, 1) == 1 {
+			return // the first stream of this peer ends before anything arrives; from the second one on it is honest
+		}
 		send := func(b *common.Beacon, bid string) bool {
 			select {
 			case out <- &proto.BeaconPacket{Round: b.Round, Signature: b.Signature, PreviousSignature: b.PreviousSig, Metadata: &proto.Metadata{BeaconID: bid}}:
